@@ -174,6 +174,34 @@ def node_instance(rng, cls, small=True):
     return inst
 
 
+def node_drop_instance(rng, cls):
+    """node-weighted DAG where the node values drop after an inner node declared as additional end (resp. rise at an
+    inner node declared as additional start): the optimum must end (start) a route exactly there"""
+    n = rng.randint(4, 6)
+    chain = gen.node_names(rng, n)
+    edges = list(zip(chain[:-1], chain[1:]))
+    extra = []
+    if rng.random() < 0.5:                        # a side branch
+        b = "zz" + chain[1]
+        extra = [(chain[0], b), (b, chain[-1])]
+    cut = rng.randint(2, n - 2)                   # the declared end is at least the third node
+    hi, lo = rng.choice([4, 5, 7]), rng.choice([1, 2])
+    val = {v: (hi if i <= cut else lo) for i, v in enumerate(chain)}
+    nodes = list(chain) + ([extra[0][1]] if extra else [])
+    if extra:
+        val[extra[0][1]] = 1
+        val[chain[0]] += 1; val[chain[-1]] += 1
+    inst = {"cls": cls, "nodes": nodes, "edges": [list(e) for e in edges + extra], "origin": "node", "weight_type": "int",
+            "constraints": [], "coverage": "1", "ignore": [], "starts": [], "ends": [chain[cut]], "options": {},
+            "node_flow": [[v, qstr(val[v])] for v in nodes], "k": 2 + (1 if extra else 0)}
+    if rng.random() < 0.4:                        # mirrored: additional start
+        inst["ends"] = []
+        inst["starts"] = [chain[cut]]
+        inst["node_flow"] = [[v, qstr((lo if i < cut else hi) + (0 if v not in (chain[0], chain[-1]) or not extra else 1))]
+                             for i, v in enumerate(chain)] + ([[extra[0][1], "1"]] if extra else [])
+    return inst
+
+
 def instance(rng, cls, small=True, features=True):
     """a random mostly-valid instance for class `cls` (edge mode)"""
     cyc = is_cyc(cls)
